@@ -76,7 +76,7 @@ def check_function(obs, outs, env, should_return, ret_words, timeout_ms=20000, r
          returns  <=>  should_return;  the returned bytes are exactly ret_words;  every other call reverts;
          the enumerated paths are exhaustive."""
     conds = [o.pc for o in outs]
-    discharge(obs, prefix + "paths-exhaustive", z3.Or(*conds) if conds else z3.BoolVal(False), timeout_ms=timeout_ms, replay=replay)
+    discharge(obs, prefix + "paths-exhaustive", z3.Or(*conds) if conds else z3.BoolVal(False), hyps=list(env.assumptions), timeout_ms=timeout_ms, replay=replay)
     n_ret = 0
     for o in outs:
         if o.status == "return":
@@ -167,3 +167,12 @@ def cd_eval_terms(env, nwords=5):
     for i in range(nwords):
         t[f"cdw_{i}"] = z3.Concat(*[z3.Select(env.calldata, BV(32 * i + k)) for k in range(32)])
     return t
+
+
+def concrete_subst(env, calldata: bytes, value=0):
+    """substitution list (for z3.substitute) that fixes the symbolic call of `env` to a concrete calldata string and value"""
+    arr = z3.K(Mx.W, z3.BitVecVal(0, 8))
+    for i, b in enumerate(calldata):
+        if b:
+            arr = z3.Store(arr, BV(i), z3.BitVecVal(b, 8))
+    return [(env.calldata, arr), (env.calldatasize, BV(len(calldata))), (env.callvalue, BV(value))]
